@@ -253,7 +253,37 @@ func c13Bubble(tp *core.Tape, e *core.Env) (ops []string) {
 	for i := 0; i < nScr && !e.Failed(); i++ {
 		h, job := pickTarget()
 		payload, gz := payloadFor()
-		switch tp.Weighted("kind", 3, 2, 2, 2, 3, 2, 1, 1, 2, 2) {
+		switch tp.Weighted("kind", 3, 2, 2, 2, 3, 2, 1, 1, 2, 2, 1) {
+		case 10: // a target first assigned by an update whose Prometheus reload failed is scraped
+			nh := uint64(105)
+			if _, had := jobOf[nh]; had {
+				continue
+			}
+			req2 := map[string][]*target.Target{}
+			for j, ts := range req {
+				req2[j] = append(req2[j], ts...)
+			}
+			req2["j0"] = append(req2["j0"], MkTarget(nh, "j0", "", 5, 5))
+			n.SC.ReloadErr = fmt.Errorf("prometheus reload failed (injected)")
+			perr := n.SC.PostTargets(&shard.UpdateTargetsRequest{Targets: req2})
+			n.SC.ReloadErr = nil
+			e.Fault("prom_reload_fails")
+			st0, _ := n.SC.GetStatus()
+			if st0[nh] == nil {
+				// the refused update did not take: nothing to scrape
+				continue
+			}
+			// the sidecar reports the target as assigned (the coordinator will not send it again): its
+			// scrapes count and its health is truthful like any other assigned target's
+			req, jobOf[nh] = req2, "j0"
+			e.Probe("target_assigned_by_refused_update")
+			_ = perr
+			failing := tp.Bool("new_target_fails", 1, 2)
+			spec := &sidecarsim.TargetSpec{Payload: payload, Gzip: gz}
+			if failing {
+				spec.Fail, spec.Status = "status", 503
+			}
+			one(nh, "j0", spec, false, "after-refused-update")
 		case 9: // the administrative stop is lifted or imposed while the scrape is in flight
 			if _, assigned := jobOf[h]; !assigned || len(payload) == 0 {
 				continue
